@@ -41,7 +41,7 @@ class Gen:
         return [] if self.no_headers else self.fs.cols(kinds, strict)
 
     def href(self, i):
-        if self.fs.named and self.r.random() < 0.6:
+        if self.fs.named and self.r.random() < 0.6 and self.fs.names.index(self.fs.names[i]) == i:
             return L.hdr(self.fs.names[i])
         return L.hdr(i)
 
